@@ -132,6 +132,11 @@ func toUnits(g *grid.G, rings [][]ref.P) [][]ref.P {
 		out[i] = make([]ref.P, len(r))
 		for j, p := range r {
 			out[i][j] = g.U(p)
+			if g.Real {
+				// the reference must see the coordinate as the tool's specified quantisation sees it
+				f := g.F(out[i][j])
+				out[i][j] = ref.P{grid.Quantise(f[0]) - g.MinX - g.AnchorPx[0]*g.ResDeepest, grid.Quantise(f[1]) - g.MinY - g.AnchorPx[1]*g.ResDeepest}
+			}
 		}
 	}
 	return out
